@@ -18,7 +18,8 @@ use std::task::{Context, Poll, Waker};
 use yash_env::job::{Pid, ProcessResult, ProcessState};
 use yash_env::semantics::ExitStatus;
 use yash_env::system::r#virtual::{Process, SIGCONT, SIGKILL, SIGSTOP, SIGTERM, SIGUSR1, VirtualSystem};
-use yash_env::system::{Disposition, Errno, Exit as _, SendSignal as _, Sigaction as _, Sigmask as _, SigmaskOp, Wait as _};
+use yash_env::system::r#virtual::SIGCHLD;
+use yash_env::system::{CaughtSignals as _, Disposition, Errno, Exit as _, SendSignal as _, Sigaction as _, Sigmask as _, SigmaskOp, Wait as _};
 
 #[derive(Clone, Copy, Debug, Serialize, Deserialize, PartialEq)]
 pub enum Sig {
@@ -145,6 +146,13 @@ pub fn run(h: &KHist, reach: &mut BTreeMap<&'static str, u64>) -> Option<(String
         alts: Vec::new(),
         action: BTreeMap::new(),
     }];
+    // every process catches SIGCHLD (the disposition is inherited by fork):
+    // each state change of a child must produce one
+    if root.sigaction(SIGCHLD, Disposition::Catch).is_err() {
+        return Some(("sigaction".into(), "cannot catch SIGCHLD".into()));
+    }
+    // model: SIGCHLD held back because the parent is stopped
+    let mut chld_held: Vec<bool> = vec![false];
     let mut next_pid = root.process_id.0 + 100;
     let term = SIGTERM.as_raw() as i64;
     let kill = SIGKILL.as_raw() as i64;
@@ -170,6 +178,7 @@ pub fn run(h: &KHist, reach: &mut BTreeMap<&'static str, u64>) -> Option<(String
     }
 
     for (i, op) in h.ops.iter().enumerate() {
+        let before: Vec<St> = procs.iter().map(|m| m.st).collect();
         // (slots are taken modulo the number of processes that exist)
         let live = |procs: &Vec<MProc>, s: u8| -> Option<usize> { Some(s as usize % procs.len()) };
         match op {
@@ -191,6 +200,7 @@ pub fn run(h: &KHist, reach: &mut BTreeMap<&'static str, u64>) -> Option<(String
                 child.pending.clear();
                 child.unreported = false;
                 procs.push(child);
+                chld_held.push(false);
             }
             KOp::Exit(p, status) => {
                 let Some(k) = live(&procs, *p) else { continue };
@@ -399,6 +409,45 @@ pub fn run(h: &KHist, reach: &mut BTreeMap<&'static str, u64>) -> Option<(String
                         }
                     }
                 }
+            }
+        }
+        // SIGCHLD: one per state change of a child, to a parent that can take it
+        let mut expected: Vec<u32> = vec![0; procs.len()];
+        for (j, m) in procs.iter().enumerate() {
+            let was = before.get(j).copied();
+            let changed = match (was, m.st) {
+                (None, _) => false,
+                (Some(a), b) if a == b => false,
+                // (reaping is not a state change of the child)
+                (Some(St::Zombie(_)), St::Reaped) => false,
+                _ => true,
+            };
+            if changed && let Some(p) = m.parent {
+                match procs[p].st {
+                    St::Running => expected[p] += 1,
+                    St::Stopped => chld_held[p] = true,
+                    _ => {}
+                }
+            }
+        }
+        for (k, m) in procs.iter().enumerate() {
+            // a parent that has just been continued gets the SIGCHLD held back
+            if before.get(k) == Some(&St::Stopped) && m.st == St::Running && std::mem::take(&mut chld_held[k]) {
+                expected[k] += 1;
+            }
+            if m.st != St::Running {
+                continue;
+            }
+            let got = sys_of(m.pid).caught_signals().into_iter().filter(|s| *s == SIGCHLD).count() as u32;
+            // a continued parent whose own pending signals killed it is not Running; several
+            // changes while it was stopped coalesce into one
+            if got != expected[k] {
+                fail!(
+                    "sigchld",
+                    "after op #{i} {op:?}: process {} received {got} SIGCHLD, the model says {} (state changes of its children in this step)",
+                    m.pid,
+                    expected[k]
+                );
             }
         }
         // after every operation: the kernel's view of every process
